@@ -152,7 +152,7 @@ func (t DurationValue) String() string {
 // Validator is a validator with an identity.
 type Validator struct{ ID int }
 
-func V(id int) tfsdk.AttributeValidator                      { return Validator{id} }
+func V(id int) tfsdk.AttributeValidator                        { return Validator{id} }
 func (v Validator) Description(context.Context) string         { return fmt.Sprintf("V(%d)", v.ID) }
 func (v Validator) MarkdownDescription(context.Context) string { return fmt.Sprintf("V(%d)", v.ID) }
 func (v Validator) Validate(context.Context, tfsdk.ValidateAttributeRequest, *tfsdk.ValidateAttributeResponse) {
@@ -161,7 +161,7 @@ func (v Validator) Validate(context.Context, tfsdk.ValidateAttributeRequest, *tf
 // PlanModifier is a plan modifier with an identity.
 type PlanModifier struct{ ID int }
 
-func PM(id int) tfsdk.AttributePlanModifier                      { return PlanModifier{id} }
+func PM(id int) tfsdk.AttributePlanModifier                       { return PlanModifier{id} }
 func (v PlanModifier) Description(context.Context) string         { return fmt.Sprintf("PM(%d)", v.ID) }
 func (v PlanModifier) MarkdownDescription(context.Context) string { return fmt.Sprintf("PM(%d)", v.ID) }
 func (v PlanModifier) Modify(context.Context, tfsdk.ModifyAttributePlanRequest, *tfsdk.ModifyAttributePlanResponse) {
@@ -236,7 +236,9 @@ func (v SentinelValue) Equal(o attr.Value) bool {
 }
 func (v SentinelValue) IsNull() bool    { return v.Null }
 func (v SentinelValue) IsUnknown() bool { return v.Unknown }
-func (v SentinelValue) String() string  { return fmt.Sprintf("Sentinel(%s,%q,#%d)", v.Suffix, v.Payload, v.Serial) }
+func (v SentinelValue) String() string {
+	return fmt.Sprintf("Sentinel(%s,%q,#%d)", v.Suffix, v.Payload, v.Serial)
+}
 
 // Serial numbers the CopyTo hook results so that each return value is distinguishable.
 var Serial int
